@@ -72,7 +72,9 @@ func try(f func()) (p any) {
 }
 
 // reference outputs of the converters on a cold call, keyed by input
-func checkOne(c *core.Ctx, s string) {
+func checkOne(c *core.Ctx, s string) { checkOneOf(c, s, convs, true) }
+
+func checkOneOf(c *core.Ctx, s string, convs []conv, twice bool) {
 	cs := Case{S: q(s)}
 	c.Eval(1)
 	c.Trans(1 + len(convs)*2)
@@ -113,6 +115,9 @@ func checkOne(c *core.Ctx, s string) {
 				class = "C19-split-leading-other-panics"
 			}
 			c.Fail(class, cs, "%s(%s) panicked: %v", cv.name, q(s), p)
+			continue
+		}
+		if !twice {
 			continue
 		}
 		if p := try(func() { b = cv.f(s) }); p != nil || a != b {
@@ -214,6 +219,20 @@ func run(c *core.Ctx) {
 			}
 		}
 	})
+	// (2b) the rune dimension in full: EVERY Unicode scalar value alone and between ASCII letters
+	// (table / range boundaries such as U+00FF, U+0100, U+FFFF, U+10000 are single points of this space)
+	c.Bound("every_unicode_scalar_value_in_contexts", []string{"r", "a+r+Z", "Z+r+a"})
+	for r := rune(0); r <= utf8.MaxRune; r++ {
+		if r >= 0xD800 && r <= 0xDFFF {
+			continue
+		}
+		if !c.Next() {
+			continue
+		}
+		for _, s := range []string{string(r), "a" + string(r) + "Z", "Z" + string(r) + "a"} {
+			checkOneOf(c, s, convs[:6], c.Thorough())
+		}
+	}
 	runSequences(c)
 	if c.Shard == 0 {
 		racePass(c)
@@ -259,7 +278,7 @@ func init() {
 	core.RegisterWorker("c19seq", seqWorker)
 	core.Register(&core.Prop{
 		ID: "C19", Level: "model_checking", Run: run, Replay: replay,
-		Rule: "every string of <=N runes over a 13-symbol rune-class alphabet (lower, upper, digit, '_', '-', '.', space, non-ASCII lower/upper, title-case letter, non-ASCII digit, CJK, NBSP), every such string <=M runes with one invalid UTF-8 sequence inserted at every position, all ordered pairs of strings <=2 runes in one process, and every call sequence of length 2 (20 inputs) / 3 (6 inputs) / 2 with two different functions (6 inputs) executed in a FRESH process and compared with the single-call result of a fresh process; a case is non-trivial when Split yields more than one word; states = distinct (word count, word-class pattern) outcomes",
+		Rule: "every string of <=N runes over a 13-symbol rune-class alphabet (lower, upper, digit, '_', '-', '.', space, non-ASCII lower/upper, title-case letter, non-ASCII digit, CJK, NBSP), every such string <=M runes with one invalid UTF-8 sequence inserted at every position, every Unicode scalar value (1,112,064) alone and between two ASCII letters, all ordered pairs of strings <=2 runes in one process, and every call sequence of length 2 (20 inputs) / 3 (6 inputs) / 2 with two different functions (6 inputs) executed in a FRESH process and compared with the single-call result of a fresh process; a case is non-trivial when Split yields more than one word; states = distinct (word count, word-class pattern) outcomes",
 		Assumptions: []string{
 			"the rune classes the code branches on (unicode.IsLower/IsUpper/IsDigit/IsLetter/IsGraphic, ASCII vs multi-byte) are each represented in the alphabet",
 			"purity is observed through return values of consecutive calls in one process, of call sequences in fresh processes and - as a complement outside the exhaustive part - of concurrent callers under the race detector",
